@@ -637,7 +637,8 @@ class TopLevelVisitor(ast.NodeVisitor):
 
                 # The startline should also begin with the same triple quote
                 # Account for raw strings. Note f-strings cannot be docstrings
-                if startline.strip().startswith((trip, 'r' + trip)):
+                if startline.strip().startswith(tuple(
+                        p + trip for p in ('', 'r', 'R', 'u', 'U'))):
                     # Both conditions pass.
                     start = cand_start_
                     break
